@@ -48,14 +48,23 @@ def encode_event(e, d="out"):
     if k == "summary":
         return {"e": k, "res": e["res"], "missing": e["missing"], "tally": e["tally"]}
     if k == "squeue":
-        return {"e": k, "ok": e["ok"]}
+        return {"e": k, "ok": e["ok"], "pid": e["pid"]}
     if k == "scancel":
         return {"e": k, "b": e["b"]}
     if k == "cop":
         return {x: e[x] for x in ("e", "pid", "op", "hcver", "hjver", "dcver", "djver", "exc", "changed", "wcfg", "wjs", "ok",
                                   "before", "host", "loaded")}
-    if k in FAULT_EVENTS:
-        return {"e": k}
+    if k == "kill":
+        # a node that disappears takes its runner (and a nested command that is not acting as submitter) with it: that is
+        # C12's "node killed"; a killed process that holds (or may hold) the submitter role is C11's fault
+        node_caused = e.get("why", "").startswith("node ") or e.get("why") == "parent died"
+        if node_caused and (e["k"] == "run-jobs" or not e.get("holder")):
+            return {"e": "nodekill", "pid": e["pid"]}
+        return {"e": "kill", "pid": e["pid"]}
+    if k == "fault":
+        return {"e": "fault", "pid": e["pid"]}
+    if k == "marker":
+        return {"e": "marker", "on": e["on"], "pid": e["pid"]}
     if k == "end":
         return {"e": k, "full": bool(e.get("full", True))}
     return None
